@@ -483,6 +483,7 @@ verus_unit(
         "flush_remainders_head": dict(own=["C13", "C20"], dep=["C14", "C10"], text="ensures: pushes the low word of the remainders head and shifts it; failure leaves everything unchanged"),
         "decode_symbol": dict(own=["C14", "C13", "C10", "C20"], dep=[], kani_twin="chain::u8_u16_p5::dec_step",
                               text="ensures: out-of-data iff a word is needed and none is left (coder unchanged); else symbol = model(next P-bit chunk), compressed side = old minus the chunk (independent of model and remainders), remainders step with flush iff >= 2^(sb-P), head invariants kept [all P <= Word bits]"),
+        "thm_chunk_inverse": dict(own=["C13"], dep=[], text="compressed side: appending the chunk just taken restores the head and writes back the consumed word (bit-vector proof, symbolic P)"),
     },
 )
 
